@@ -571,6 +571,9 @@ func writeEvidence(ck *Check, tier string, seed uint64, st *workerStats, scenari
 			cov[k] = v
 		}
 	}
+	if ck.Assumptions == nil {
+		ck.Assumptions = []string{}
+	}
 	ev := map[string]interface{}{
 		"property_id": ck.ID, "tier": tier, "seed": int64(seed), "level": ck.Level, "coverage": cov,
 		"assumptions": ck.Assumptions, "wall_s": wall, "violations": unlisted,
